@@ -119,6 +119,28 @@ theorem canonicalize_same_set (ps : List Prefix) (a : Nat) :
   · rintro ⟨p, hp, h⟩; exact ⟨p, (mem_canonicalize p ps).mp hp, h⟩
   · rintro ⟨p, hp, h⟩; exact ⟨p, (mem_canonicalize p ps).mpr hp, h⟩
 
+/-- The canonical form is canonical: two raw lists with the same members — in any order, with any
+repetitions — have the SAME canonical list (strictly sorted by length, family, address), so they
+hash alike and are recognised as the same set. -/
+theorem canonicalize_canonical (xs ys : List Prefix) (h : ∀ p, p ∈ xs ↔ p ∈ ys) :
+    canonicalize xs = canonicalize ys :=
+  strictSorted_ext _ _ (strictSorted_canonicalize xs) (strictSorted_canonicalize ys)
+    (fun p => by rw [mem_canonicalize, mem_canonicalize]; exact h p)
+
+example : canonicalize [⟨true, mapped4 2, 32⟩, ⟨false, 5, 7⟩, ⟨true, mapped4 2, 32⟩, ⟨true, mapped4 1, 32⟩] =
+    canonicalize [⟨true, mapped4 1, 32⟩, ⟨true, mapped4 2, 32⟩, ⟨false, 5, 7⟩] := by decide
+
+/-- `0.0.0.0/0` is "every IPv4 address" (exactly the IPv4-mapped block), not "everything". -/
+theorem v4_default_route (net a : Nat) (hnet : net < 2 ^ 32) (ha : a < 2 ^ 128) :
+    (trieMatch [⟨true, mapped4 net, 0⟩] a = true ↔ a / 2 ^ 32 = 0xffff) := by
+  have hwf : (⟨true, mapped4 net, 0⟩ : Prefix).WF := by
+    unfold Prefix.WF mapped4; simp; omega
+  rw [trie_matches_iff_contained _ a (by simpa using hwf) ha]
+  simp only [List.mem_cons, List.not_mem_nil, or_false, exists_eq_left]
+  unfold contains Prefix.len128 mapped4
+  simp only [if_true]
+  omega
+
 /-- **Sharing.** Whatever the hash function (collisions included), after compiling any sequence of
 IP/MAC sets the LPM slot assigned to the `i`-th set holds exactly that set's own canonical prefix
 list: two rule sets share a slot only when their canonical lists are identical. -/
@@ -143,6 +165,60 @@ theorem shared_slots_equal_sets (hash : List Prefix → Nat) (sets : List (List 
   rw [heq] at h1'
   rw [h1'] at h2'
   exact Option.some.inj h2'
+
+/-- **All three producers of LPM slots** (`addIp`, `addSourceIp`: canonicalised and shared through
+`lpmDedup`; `addSourceMac`: MACs as host routes in the 16-byte form, zero MAC appended for a negated
+rule, never shared): after any sequence of them, whatever the hash function, the slot assigned to the
+`i`-th operation holds exactly that operation's own list. -/
+theorem slots_hold_own_set (hash : List Prefix → Nat) (ops : List SetOp) (i : Nat) (hi : i < ops.length) :
+    let r := Builder.addOps hash Builder.empty ops
+    ∃ hj : i < r.2.length, r.1.tries[r.2[i]]? = some (ops[i]).slotValues := by
+  intro r
+  obtain ⟨hlen, _, hall⟩ := Builder.addOps_spec hash ops Builder.empty Builder.inv_empty
+  exact ⟨by rw [hlen]; exact hi, (hall i hi (by rw [hlen]; exact hi)).1⟩
+
+/-- … hence the set a rule is matched against (userspace trie of its slot) is the set the rule lists:
+for an IP rule the addresses its prefixes contain … -/
+theorem slot_same_set_ip (hash : List Prefix → Nat) (ops : List SetOp) (i : Nat) (hi : i < ops.length)
+    (raw : List Prefix) (hop : ops[i] = .ip raw) (a : Nat) :
+    let r := Builder.addOps hash Builder.empty ops
+    ∃ hj : i < r.2.length, ∃ vals, r.1.tries[r.2[i]]? = some vals ∧ trieMatch vals a = trieMatch raw a := by
+  intro r
+  obtain ⟨hj, h⟩ := slots_hold_own_set hash ops i hi
+  refine ⟨hj, _, h, ?_⟩
+  rw [hop]
+  exact canonicalize_same_set raw a
+
+/-- … and for a MAC rule exactly the listed MACs (plus the zero MAC when the rule is negated). -/
+theorem mac_slot_exact (macs : List Nat) (neg : Bool) (a : Nat) (hm : ∀ m ∈ macs, m < 2 ^ 128)
+    (ha : a < 2 ^ 128) :
+    trieMatch (SetOp.mac macs neg).slotValues a = true ↔ (a ∈ macs ∨ (neg = true ∧ a = 0)) := by
+  have hwf : ∀ p ∈ (SetOp.mac macs neg).slotValues, p.WF := by
+    intro p hp
+    simp only [SetOp.slotValues, List.mem_map] at hp
+    obtain ⟨m, hm', rfl⟩ := hp
+    refine ⟨?_, by simp [macPrefix128]⟩
+    cases neg <;> simp at hm'
+    · exact hm m hm'
+    · rcases hm' with h | h
+      · exact hm m h
+      · subst h; simp [macPrefix128]
+  rw [trie_matches_iff_contained _ a hwf ha]
+  simp only [SetOp.slotValues, List.mem_map]
+  constructor
+  · rintro ⟨p, ⟨m, hm', rfl⟩, hc⟩
+    have : a = m := (host_route_exact (macPrefix128 m) a (by simp [macPrefix128, Prefix.len128])).mp hc
+    subst this
+    cases neg <;> simp at hm'
+    · exact Or.inl hm'
+    · rcases hm' with h | h
+      · exact Or.inl h
+      · exact Or.inr ⟨rfl, h⟩
+  · intro h
+    refine ⟨macPrefix128 a, ⟨a, ?_, rfl⟩, (host_route_exact (macPrefix128 a) a (by simp [macPrefix128, Prefix.len128])).mpr rfl⟩
+    rcases h with h | ⟨hn, h0⟩
+    · cases neg <;> simp [h]
+    · subst hn; subst h0; simp
 
 -- a colliding hash really exercises the collision branch: constant hash, two different sets
 example : (Builder.addAll (fun _ => 7) Builder.empty
